@@ -10,7 +10,7 @@ ROOT = os.path.dirname(os.path.dirname(os.path.abspath(__file__)))
 
 def main():
     src = sys.argv[1]
-    props = [a for a in sys.argv[2:] if a.startswith("C")]
+    props = [a for a in sys.argv[2:] if a.startswith(("C", "X"))]
     tier = "thorough" if "thorough" in sys.argv else "quick"
     patch = os.path.join(src, "patch.diff") if os.path.isdir(src) else src
     scratch = tempfile.mkdtemp(prefix="seedtest_")
@@ -25,7 +25,8 @@ def main():
     env = dict(os.environ, REPO=repo, VERIF_BUILD_DIR=os.path.join(scratch, "build"),
                VERIF_OUT_DIR=os.path.join(scratch, "out"), VERIF_EVIDENCE_DIR=os.path.join(scratch, "evidence"))
     for p in props:
-        cfg = json.load(open(os.path.join(ROOT, "props", p + ".json")))
+        pf = os.environ.get("VERIF_PROPS_EXTRA") if p.startswith("X") else os.path.join(ROOT, "props", p + ".json")
+        cfg = json.load(open(pf))
         cmd = cfg.get(tier + "_cmd", f"python3 tools/check.py {p} --tier {tier}")
         r = subprocess.run(cmd, shell=True, cwd=ROOT, env=env, capture_output=True, text=True)
         lines = [l for l in r.stdout.splitlines() if l.startswith(("VIOLATION", "KNOWN-FINDING"))]
